@@ -812,14 +812,18 @@ struct elements_iterator_t : boost::multi::random_accessable<elements_iterator_t
 	}
 
 	BOOST_MULTI_HD constexpr auto operator+=(difference_type n) -> elements_iterator_t& {
-		auto const nn = std::apply(xs_, ns_);
-		ns_ = xs_.from_linear(nn + n);
+		if(xs_.num_elements() != 0) {  // an empty range has no index tuples (and from_linear would divide by zero)
+			auto const nn = std::apply(xs_, ns_);
+			ns_ = xs_.from_linear(nn + n);
+		}
 		n_ += n;
 		return *this;
 	}
 	BOOST_MULTI_HD constexpr auto operator-=(difference_type n) -> elements_iterator_t& {
-		auto const nn = std::apply(xs_, ns_);
-		ns_ = xs_.from_linear(nn - n);
+		if(xs_.num_elements() != 0) {
+			auto const nn = std::apply(xs_, ns_);
+			ns_ = xs_.from_linear(nn - n);
+		}
 		n_ -= n;
 		return *this;
 	}
@@ -2053,7 +2057,7 @@ class subarray : public const_subarray<T, D, ElementPtr, Layout> {
 
 	constexpr auto operator=(const_subarray<T, D, ElementPtr, Layout> const& other) & -> subarray& {
 		if(this == std::addressof(other)) { return *this; }
-		BOOST_MULTI_ASSERT(this->extensions() == other.extensions());
+		BOOST_MULTI_ASSERT((this->extensions() == other.extensions()) || (this->num_elements() == 0 && other.num_elements() == 0));
 		this->elements() = other.elements();
 		return *this;
 	}
@@ -2090,7 +2094,7 @@ class subarray : public const_subarray<T, D, ElementPtr, Layout> {
 	// fix mutation
 	template<class TT, class... As> constexpr auto operator=(const_subarray<TT, D, As...>     && other) && -> subarray& {operator=(std::move(other)); return *this;}
 	template<class TT, class... As> constexpr auto operator=(const_subarray<TT, D, As...>     && other)  & -> subarray& {
-		BOOST_MULTI_ASSERT(this->extensions() == other.extensions());
+		BOOST_MULTI_ASSERT((this->extensions() == other.extensions()) || (this->num_elements() == 0 && other.num_elements() == 0));
 		this->elements() = std::move(other).elements();
 		return *this;
 	}
@@ -2131,7 +2135,7 @@ class subarray : public const_subarray<T, D, ElementPtr, Layout> {
 	template<class TT, class... As>
 	constexpr
 	auto operator=(const_subarray<TT, D, As...> const& other) && -> subarray& {
-		BOOST_MULTI_ASSERT(this->extensions() == other.extensions());  // NOLINT(cppcoreguidelines-pro-bounds-array-to-pointer-decay,hicpp-no-array-decay) : normal in a constexpr function
+		BOOST_MULTI_ASSERT((this->extensions() == other.extensions()) || (this->num_elements() == 0 && other.num_elements() == 0));  // NOLINT(cppcoreguidelines-pro-bounds-array-to-pointer-decay,hicpp-no-array-decay) : normal in a constexpr function
 		this->elements() = other.elements();
 		return *this;
 	}
@@ -2139,7 +2143,7 @@ class subarray : public const_subarray<T, D, ElementPtr, Layout> {
 	template<class TT, class... As>
 	constexpr
 	auto operator=(subarray<TT, D, As...>&& other) & -> subarray& {
-		BOOST_MULTI_ASSERT(this->extensions() == other.extensions());  // NOLINT(cppcoreguidelines-pro-bounds-array-to-pointer-decay,hicpp-no-array-decay) : normal in a constexpr function
+		BOOST_MULTI_ASSERT((this->extensions() == other.extensions()) || (this->num_elements() == 0 && other.num_elements() == 0));  // NOLINT(cppcoreguidelines-pro-bounds-array-to-pointer-decay,hicpp-no-array-decay) : normal in a constexpr function
 		this->elements() = std::move(other).elements();
 		return *this;
 	}
@@ -2161,13 +2165,13 @@ class subarray : public const_subarray<T, D, ElementPtr, Layout> {
 
 	constexpr auto operator=(subarray const& other) & -> subarray& {
 		if(this == std::addressof(other)) { return *this; }
-		BOOST_MULTI_ASSERT(this->extensions() == other.extensions());
+		BOOST_MULTI_ASSERT((this->extensions() == other.extensions()) || (this->num_elements() == 0 && other.num_elements() == 0));
 		this->elements() = other.elements();
 		return *this;
 	}
 	constexpr auto operator=(subarray&& other) & noexcept -> subarray& {  // TODO(correaa) make conditionally noexcept
 		// if(this == std::addressof(other)) { return *this; }
-		BOOST_MULTI_ASSERT(this->extensions() == other.extensions());
+		BOOST_MULTI_ASSERT((this->extensions() == other.extensions()) || (this->num_elements() == 0 && other.num_elements() == 0));
 		this->elements() = std::move(other).elements();
 		return *this;
 	}
